@@ -43,6 +43,9 @@ claim("C02", "write-set, dominance/post-dominance and effect-freedom rules on th
 claim("C08", "def-use normal forms (clamp domain over the rounded model value, exact polynomials) + dominating-guard rules + natural-loop exit and update-pairing analysis, over rustc MIR",
       "Sound static decision of the clauses from which the speaking-rate law follows: per-state duration = cast(max(round(mean+rho*vari),1)); create() uses rho=0 unless speed != 1; target = cast(max(round(sum/speed),1)); target <= states gives all ones; the greedy loop exits only on target == sum, starts from the element sum, changes one element and the sum by the same +-1 with the sign of target-sum, and never decrements a 1-frame state; condition.speed is what create() receives. Total = max(round(F1/s), states) and every state >= 1 follow arithmetically.")
 
+claim("C09", "exact polynomial forms of the time scaling and group target + store/guard pairing of the inheritance rules + a crate-wide computed-value-is-used rule over the synthesis closure + dispatch guards, over rustc MIR",
+      "Sound static decision of the structural clauses of C09: times are scaled by sampling_rate/(fperiod*1e7) with start/end from tokens 1/2 and the right argument roles; the two inheritance stores carry the stated sign guards; each known end fits parameters[next_state..state+nstate] to end - frames_so_far with the loop-carried updates on the right paths; no duration estimate in the synthesis closure is computed and dropped (the fallback for trailing untimed labels is appended); the alignment flag dispatches to the aligned path. Not decided: the full loop invariant and fractional-frame rounding.")
+
 
 def main():
     props = [json.loads(l) for l in open(os.path.join(VERIF, "properties.jsonl"))]
